@@ -1898,7 +1898,7 @@ func TestC15(t *testing.T) {
 		})
 	}
 	// ------------------------------------------------------------ direct.json
-	keys := append([]string(nil), fz.Keys...)
+	keys := append([]string{}, fz.Keys...)
 	for k := range directKeys {
 		keys = append(keys, k)
 	}
@@ -1908,6 +1908,9 @@ func TestC15(t *testing.T) {
 	}
 	if direct == nil {
 		direct = []any{}
+	}
+	if fz.Samples == nil {
+		fz.Samples = []any{}
 	}
 	dist := map[string]any{"mutation": fz.ByHow, "decoder_answer": fz.ByOutcome}
 	WriteJSON(t, filepath.Join(dir, "direct.json"), map[string]any{
